@@ -185,14 +185,13 @@ class TdMpsJob(object):
         os.makedirs(self.dump_dir, exist_ok=True)
         file_path = os.path.join(self.dump_dir, self.job_name + ".npz")
         bak_path = file_path + ".bak"
-        if os.path.exists(file_path):
-            # in case of shutdown while dumping
-            if os.path.exists(bak_path):
-                os.remove(bak_path)
-            os.rename(file_path, bak_path)
+        tmp_path = file_path + ".tmp.npz"
+        # in case of shutdown while dumping: write to a temporary file first and
+        # then atomically replace the old one, so that a complete file always exists
+        np.savez(tmp_path, **d)
+        os.replace(tmp_path, file_path)
 
-        np.savez(file_path, **d)
-
+        # backup left by a previous version / previous crash
         if os.path.exists(bak_path):
             os.remove(bak_path)
 
